@@ -6,7 +6,14 @@ rules, unrelated rules) and a permutation of its documents, loaded through one o
 the output flags, and per rule the conversion result.  Deciding (Lean `coll.check`): the implementation's
 order is a permutation in which every referenced rule precedes its referrers; output flags are as the
 property states; loading fails with a Sigma error iff a reference is missing; per-rule queries and the
-success/failure are identical for all permutations of the same rule set."""
+success/failure are identical for all permutations of the same rule set.
+
+Round 4: load path 'partmerge' = merged collections whose parts differ in their resolution history: the documents are split
+into the reference closure of one correlation rule and the rest (optionally split again); a part that is closed under
+references may have been loaded with its references resolved on its own (default of the loaders), the others are loaded
+unresolved; the parts are merged in any order, with the resolution either done by the merge or deferred to `Backend.convert`
+(`merge(..., resolve_references=False)`).  With a deferred resolution the order and the output flags are observed after the
+conversion, and a missing reference is reported when the references are resolved (by `convert`)."""
 from __future__ import annotations
 import itertools, os, random, shutil, uuid
 from .common import Verdict, outcome_of_exception, WORK
@@ -18,7 +25,9 @@ RULE = ("rule sets = 1..4 plain rules (named and/or with id), 0..3 correlation r
         "documents (all for <= 5 documents at quick / <= 6 at thorough, sampled beyond) x load paths {from_yaml, from_dicts, "
         "merge, load_ruleset}; distinct = distinct (rule set, permutation, path); non-trivial = at least one reference"
         "; correlation rules with extended conditions (references from the condition text only); load path 'remerge' (the collection holding the correlation rules was merged once before with other rule objects)"
-        "; load path 'collect' (error collection on, every correlation rule carries an unrelated collected error)")
+        "; load path 'collect' (error collection on, every correlation rule carries an unrelated collected error)"
+        "; round 4: load path 'partmerge' (merged collections with different resolution histories: the reference closure of a correlation "
+        "rule loaded resolved on its own, the rest unresolved or resolved, merged in any order, resolution by the merge or deferred to convert)")
 ASSUMPTIONS = [
     "rule names and ids are unique within a rule set (a later duplicate replaces an earlier one in the implementation's tables: modelled, not generated)",
     "the test backend's correlation templates are used to convert correlation rules",
@@ -98,10 +107,63 @@ def gen_cases(tier, seed, gen, effort):
             perms = [tuple(rnd.sample(range(n), n)) for _ in range(20)]
         for p in perms:
             cases.append({"set": s, "docs": docs, "perm": list(p), "path": rnd.choice(PATHS)})
+        # merged collections whose parts have different resolution histories (own random stream: the cases above stay as they were)
+        rnd2 = random.Random(seed * 7919 + s * 31 + 4)
+        corr = [i for i, d in enumerate(docs) if "correlation" in d]
+        if corr:
+            for p in rnd2.sample(perms, min(len(perms), 6 if not thorough else 12)):
+                cases.append(dict({"set": s, "docs": docs, "perm": list(p), "path": "partmerge"}, **gen_parts(rnd2, docs, list(p), rnd2.choice(corr))))
     return cases, False
 
 
-def load(docs, path, tag):
+def closure(docs, start):
+    """indices of the documents reachable from docs[start] through references, and whether every reference exists"""
+    by_key = {}
+    for i, d in enumerate(docs):
+        for k in ("name", "id"):
+            if k in d:
+                by_key[d[k]] = i
+    seen, todo, complete = set(), [start], True
+    while todo:
+        i = todo.pop()
+        if i in seen:
+            continue
+        seen.add(i)
+        c = docs[i].get("correlation")
+        for r in (refs_of(c) if c else []):
+            if r in by_key:
+                todo.append(by_key[r])
+            else:
+                complete = False
+    return seen, complete
+
+
+def closed(docs, part):
+    """every reference of a correlation rule of the part is to a rule of the part"""
+    return all(closure(docs, i)[1] and closure(docs, i)[0] <= set(part) for i in part)
+
+
+def gen_parts(rnd, docs, perm, c):
+    """split the permuted documents into the reference closure of correlation rule c and the rest (sometimes split again); a part
+    closed under references may be loaded resolved on its own.  Parts hold positions in the permuted document list."""
+    pdocs = [docs[i] for i in perm]
+    a, _ = closure(pdocs, perm.index(c))
+    rest = [i for i in range(len(pdocs)) if i not in a]
+    parts = [sorted(a)]
+    if len(rest) >= 2 and rnd.random() < 0.3:
+        k = rnd.randint(1, len(rest) - 1)
+        parts += [rest[:k], rest[k:]]
+    elif rest:
+        parts.append(rest)
+    rnd.shuffle(parts)
+    resolved = []
+    for part in parts:
+        first = part == sorted(a)
+        resolved.append(closed(pdocs, part) and rnd.random() < (0.85 if first else 0.4))
+    return {"parts": parts, "resolved": resolved, "final": rnd.random() < 0.35}
+
+
+def load(docs, path, tag, case=None):
     import yaml
     from sigma.collection import SigmaCollection
     if path == "from_dicts":
@@ -115,6 +177,11 @@ def load(docs, path, tag):
         a = SigmaCollection.from_dicts(copy.deepcopy(docs[:h]), resolve_references=False)
         b = SigmaCollection.from_dicts(copy.deepcopy(docs[h:]), resolve_references=False) if docs[h:] else None
         return SigmaCollection.merge([c for c in (a, b) if c is not None])
+    if path == "partmerge":
+        import copy
+        colls = [SigmaCollection.from_dicts(copy.deepcopy([docs[i] for i in part]), resolve_references=res)
+                 for part, res in zip(case["parts"], case["resolved"])]
+        return SigmaCollection.merge(colls, resolve_references=case["final"])
     if path == "collect":
         # loaded with error collection; every correlation rule carries an unrelated, collected error (an invalid status): its
         # references are resolved all the same
@@ -153,7 +220,7 @@ def run_impl(case):
     docs = [case["docs"][i] for i in case["perm"]]
     tag = f"{os.getpid()}_{case['set']}"
     try:
-        coll = load(docs, case["path"], tag)
+        coll = load(docs, case["path"], tag, case)
     except Exception as e:
         return {"outcome": outcome_of_exception(e), "stage": "load", "msg": str(e)[:120]}
     if case["path"] == "collect":        # with error collection "reported at load time" means: among the collected errors
@@ -161,11 +228,16 @@ def run_impl(case):
         if nf:
             return {"outcome": outcome_of_exception(nf[0]), "stage": "load", "msg": str(nf[0])[:120]}
     titles = [d["title"] for d in docs]
+    deferred = case["path"] == "partmerge" and not case["final"]     # the caller left the resolution to Backend.convert
     try:
-        order = [titles.index(r.title) for r in coll.rules]
-        flags = {r.title: bool(r._output) for r in coll.rules}
+        if not deferred:
+            order = [titles.index(r.title) for r in coll.rules]
+            flags = {r.title: bool(r._output) for r in coll.rules}
         b = TextQueryTestBackend()
         out = b.convert(coll)
+        if deferred:
+            order = [titles.index(r.title) for r in coll.rules]
+            flags = {r.title: bool(r._output) for r in coll.rules}
         results = {r.title: r.get_conversion_result() for r in coll.rules}
         return {"outcome": "ok", "order": order, "flags": flags, "results": results, "output": out}
     except Exception as e:
@@ -192,6 +264,14 @@ def make_request(case, impl, gen):
 _ref = {}
 
 
+def via(case):
+    if case["path"] != "partmerge":
+        return case["path"]
+    docs = [case["docs"][i] for i in case["perm"]]
+    parts = [f"{[docs[i]['title'] for i in part]} loaded {'resolved' if res else 'with resolve_references=False'}" for part, res in zip(case["parts"], case["resolved"])]
+    return f"merge of {' + '.join(parts)}, " + ("resolved by the merge" if case["final"] else "merge(resolve_references=False), resolution left to Backend.convert")
+
+
 def judge(case, impl, reply):
     io = impl["outcome"]
     docs = [case["docs"][i] for i in case["perm"]]
@@ -199,30 +279,35 @@ def judge(case, impl, reply):
     has_ref = any("correlation" in d for d in docs)
     tags = [f"path:{case['path']}", f"n:{len(docs)}", f"impl:{io.split(':')[0]}", f"resolve:{reply['resolve']}"]
     if io.startswith("other:"):
-        return Verdict("violation", f"{io} at {impl.get('stage')}: {impl.get('msg')} for order {[d['title'] for d in docs]} via {case['path']}", has_ref, key, tags=tuple(tags))
+        return Verdict("violation", f"{io} at {impl.get('stage')}: {impl.get('msg')} for order {[d['title'] for d in docs]} via {via(case)}", has_ref, key, tags=tuple(tags))
+    if case["path"] == "partmerge":
+        key = key + (case["parts"], case["resolved"], case["final"])
+        tags.append(f"partmerge:{'merge-resolves' if case['final'] else 'deferred'}:{sum(case['resolved'])}of{len(case['parts'])}-resolved")
     if reply["resolve"] == "missing":
         if io.startswith("sigma:") and impl.get("stage") == "load":
             return Verdict("ok", "", has_ref, key, tags=tuple(tags))
-        return Verdict("violation", f"a reference to a missing rule must be a Sigma error at load time; got {io} at {impl.get('stage')} for {[d['title'] for d in docs]} via {case['path']}", has_ref, key, tags=tuple(tags))
+        if case["path"] == "partmerge" and not case["final"] and io == "sigma:SigmaRuleNotFoundError":
+            return Verdict("ok", "", has_ref, key, tags=tuple(tags))        # resolution deferred to convert by the caller: reported there
+        return Verdict("violation", f"a reference to a missing rule must be a Sigma error at load time; got {io} at {impl.get('stage')} for {[d['title'] for d in docs]} via {via(case)}", has_ref, key, tags=tuple(tags))
     if io != "ok":
-        return Verdict("violation", f"all references exist but {io} at {impl.get('stage')}: {impl.get('msg')} for document order {[d['title'] for d in docs]} via {case['path']}", has_ref, key, tags=tuple(tags))
+        return Verdict("violation", f"all references exist but {io} at {impl.get('stage')}: {impl.get('msg')} for document order {[d['title'] for d in docs]} via {via(case)}", has_ref, key, tags=tuple(tags))
     if not reply["implOrderValid"]:
-        return Verdict("violation", f"rule order {[docs[i]['title'] for i in impl['order']]} does not put every referenced rule before its referrers (document order {[d['title'] for d in docs]}, via {case['path']})", has_ref, key, tags=tuple(tags))
+        return Verdict("violation", f"rule order {[docs[i]['title'] for i in impl['order']]} does not put every referenced rule before its referrers (document order {[d['title'] for d in docs]}, via {via(case)})", has_ref, key, tags=tuple(tags))
     for i, d in enumerate(docs):
         want = reply["specFlags"][i]
         if want is not None and impl["flags"][d["title"]] != want:
-            return Verdict("violation", f"rule {d['title']} output flag {impl['flags'][d['title']]} but the property says {want} (document order {[x['title'] for x in docs]})", has_ref, key, tags=tuple(tags))
+            return Verdict("violation", f"rule {d['title']} output flag {impl['flags'][d['title']]} but the property says {want} (document order {[x['title'] for x in docs]}, via {via(case)})", has_ref, key, tags=tuple(tags))
     # same per-rule results for every permutation / path of the same set: compare with the first seen
     sig = {t: r for t, r in impl["results"].items()}
     ref = _ref.setdefault(case["set"], (sig, case["perm"], case["path"]))
     if ref[0] != sig:
         diff = [t for t in sig if sig[t] != ref[0].get(t)]
-        return Verdict("violation", f"rules {diff} convert differently for document order {case['perm']} via {case['path']} than for {ref[1]} via {ref[2]}: {[sig[t] for t in diff]} vs {[ref[0].get(t) for t in diff]}", has_ref, key, tags=tuple(tags))
+        return Verdict("violation", f"rules {diff} convert differently for document order {case['perm']} via {via(case)} than for {ref[1]} via {ref[2]}: {[sig[t] for t in diff]} vs {[ref[0].get(t) for t in diff]}", has_ref, key, tags=tuple(tags))
     # emitted output = results of output-enabled rules in rule order
     want_out = [q for i in impl["order"] for q in (impl["results"][docs[i]["title"]] if impl["flags"][docs[i]["title"]] else [])]
     if impl["output"] != want_out:
         return Verdict("violation", f"emitted queries {impl['output']} are not the output-enabled rules' queries in rule order {want_out}", has_ref, key, tags=tuple(tags))
-    if case["path"] == "remerge":
+    if case["path"] in ("remerge", "partmerge"):
         return Verdict("ok", "", has_ref, key, tags=tuple(tags + ["nodrift:merge-order"]))         # correlation rules first, then the plain rules
     if case["path"] == "load_ruleset":
         return Verdict("ok", "", has_ref, key, tags=tuple(tags + ["nodrift:glob-order"]))   # file enumeration order is the OS's
